@@ -9,6 +9,7 @@ from .. import docgen as D, grammar as G, kdoc as K, spine as S
 from ..common import Bad, Result
 
 ID = 'C01'
+SHARDS_QUICK = 4
 RULE = ('Hypothesis-generated abstract documents (profile "full", see C03) rendered twice: variant A, and variant B in '
         'which every note/rest/chord member has its signifiers re-placed (before the duration, between duration and '
         'pitch, between pitch and accidental, after), permuted and repeated by independent draws.  Oracle: (1) '
@@ -142,13 +143,13 @@ FINDINGS = {'KF-CHORDREST': f_chordrest}
 
 
 def run(ctx):
-    n = 220 if ctx.quick else 2200
+    n = 80 if ctx.quick else 2200
     ctx.run_hypothesis(doc_pairs(D.profile('full', chord_optional_dur=True, hidden_bars=True)), check, max_examples=n, label='full')
-    ctx.run_hypothesis(doc_pairs(D.profile('chordrest', kern_weight=6)), check, max_examples=max(40, n // 6), salt=1,
+    ctx.run_hypothesis(doc_pairs(D.profile('chordrest', kern_weight=6)), check, max_examples=max(15, n // 6), salt=1,
                        label='chordrest')
     # multi-character signifier units (elided slurs, editorial marks, footnotes, staff changes on slurs/beams): outside
     # the canonicity CLAIM, but the fixed-point clauses apply to every document that imports without errors
-    ctx.run_hypothesis(doc_pairs(D.profile('full', ext_sigs=True, kern_weight=6)), check, max_examples=max(40, n // 5), salt=2,
+    ctx.run_hypothesis(doc_pairs(D.profile('full', ext_sigs=True, kern_weight=6)), check, max_examples=max(15, n // 5), salt=2,
                        label='multi-character-signifiers')
 
 
